@@ -707,6 +707,96 @@ pub mod lemmas {
         }
     }
 
+    // ---- C11, FASTA counterpart: writing every parsed record unchanged reproduces the input ------------------------------
+    /// what fasta write_unchanged appends for the record at p, by its contract: the bytes from '>' to the end of its last line, then
+    /// LF unless those bytes already end in LF (which happens exactly when the record ends with an empty line)
+    pub open spec fn fa_unchanged(f: Seq<u8>, p: int) -> Seq<u8> {
+        let raw = f.subrange(p, fa_lines(f, p).last());
+        raw + (if raw.last() != 10u8 { seq![10u8] } else { Seq::<u8>::empty() })
+    }
+    /// line index just after record r
+    pub open spec fn fa_next(ls: Seq<Seq<u8>>, hs: Seq<int>, r: int) -> int { if r + 1 < hs.len() { hs[r + 1] } else { ls.len() as int } }
+    pub open spec fn fa_unchanged_all(ls: Seq<Seq<u8>>, cr: Seq<bool>, fin: bool, hs: Seq<int>, k: int) -> Seq<u8>
+        decreases k
+    {
+        if k <= 0 { Seq::<u8>::empty() } else { fa_unchanged_all(ls, cr, fin, hs, k - 1) + fa_unchanged(full(ls, cr, fin), off(ls, cr, fin, hs[k - 1])) }
+    }
+    /// no record ends with an empty line (such a line is dropped by write_unchanged: the blank-line normalisation of C11)
+    pub open spec fn fa_no_blank_ends(ls: Seq<Seq<u8>>, cr: Seq<bool>, hs: Seq<int>) -> bool {
+        forall|r: int| 0 <= r < hs.len() ==> (#[trigger] ls[fa_next(ls, hs, r) - 1]).len() > 0 || cr[fa_next(ls, hs, r) - 1]
+    }
+    /// where the raw extent of the record on lines [i, j) ends, and that it does not end in LF unless its last line is empty
+    proof fn lemma_fa_raw_end(ls: Seq<Seq<u8>>, cr: Seq<bool>, fin: bool, i: int, j: int)
+        requires fa_text_ok(ls, cr, fin), fa_rec_at(ls, i, j), ls[j - 1].len() > 0 || cr[j - 1]
+        ensures ({
+            let f = full(ls, cr, fin); let p = off(ls, cr, fin, i); let e = fa_lines(f, p).last(); let oj = off(ls, cr, fin, j);
+            &&& 0 <= p < e <= f.len() && oj <= f.len() && f[e - 1] != 10u8
+            &&& (j < ls.len() || fin ==> e + 1 == oj && f[e] == 10u8)
+            &&& (!(j < ls.len() || fin) ==> e == f.len() && oj == f.len())
+        })
+    {
+        let f = full(ls, cr, fin);
+        let p = off(ls, cr, fin, i);
+        lemma_fa_line_ends(ls, cr, fin, i, j);
+        let e = fa_lines(f, p).last();
+        assert(e == line_end(ls, cr, fin, j - 1));
+        lemma_line_at(ls, cr, fin, j - 1);
+        lemma_line_at(ls, cr, fin, i);
+        lemma_line_rules(ls, cr, fin, j - 1);
+        lemma_text_prefix(ls, cr, fin, i, j - 1);
+        lemma_full_len(ls, cr, fin);
+        let o1 = off(ls, cr, fin, j - 1);
+        let last = ls[j - 1];
+        if cr[j - 1] {
+            assert(f[o1 + last.len()] == 13u8);
+        } else {
+            assert(f.subrange(o1, o1 + last.len())[last.len() - 1] == f[o1 + last.len() - 1]);
+        }
+    }
+    proof fn lemma_fa_unchanged_step(ls: Seq<Seq<u8>>, cr: Seq<bool>, fin: bool, i: int, j: int)
+        requires fa_text_ok(ls, cr, fin), fa_rec_at(ls, i, j), ls[j - 1].len() > 0 || cr[j - 1]
+        ensures text(ls, cr, true, j) == text(ls, cr, true, i) + fa_unchanged(full(ls, cr, fin), off(ls, cr, fin, i))
+    {
+        hide(fa_text_ok); hide(text); hide(fa_lines); hide(lines_ok);
+        let f = full(ls, cr, fin);
+        let p = off(ls, cr, fin, i);
+        assert(0 <= i < j <= ls.len());
+        lemma_fa_raw_end(ls, cr, fin, i, j);
+        lemma_text_segment(ls, cr, fin, i, j);
+        lemma_text_fin(ls, cr, fin, i);
+        lemma_text_fin(ls, cr, fin, j);
+        let e = fa_lines(f, p).last();
+        let t0 = text(ls, cr, fin, i);
+        let oj = off(ls, cr, fin, j);
+        let raw = f.subrange(p, e);
+        assert(raw[raw.len() - 1] == f[e - 1]);
+        assert(fa_unchanged(f, p) == raw + seq![10u8]);
+        assert(text(ls, cr, true, i) == t0);
+        if j < ls.len() || fin {
+            assert(f.subrange(p, oj) =~= raw + seq![10u8]);
+        } else {
+            assert(t0 + f.subrange(p, oj) + seq![10u8] =~= t0 + (raw + seq![10u8]));
+        }
+    }
+    pub proof fn lemma_fasta_unchanged_reproduces_input(ls: Seq<Seq<u8>>, cr: Seq<bool>, fin: bool, hs: Seq<int>, k: int)
+        requires fa_text_ok(ls, cr, fin), fa_recs(ls, hs), fa_no_blank_ends(ls, cr, hs), hs[0] == 0, 0 <= k <= hs.len()
+        ensures
+            [C11|lemma.fasta_unchanged.reproduces_input] fa_unchanged_all(ls, cr, fin, hs, k) == text(ls, cr, true, if k < hs.len() { hs[k] } else { ls.len() as int }),
+            [C11|lemma.fasta_unchanged.whole_input] k == hs.len() ==> fa_unchanged_all(ls, cr, fin, hs, k)
+                == full(ls, cr, fin) + (if fin { Seq::<u8>::empty() } else { seq![10u8] }),
+        decreases k
+    {
+        if k > 0 {
+            lemma_fasta_unchanged_reproduces_input(ls, cr, fin, hs, k - 1);
+            let (i, j) = (hs[k - 1], fa_next(ls, hs, k - 1));
+            assert(fa_rec_at(ls, i, j));
+            assert(ls[j - 1].len() > 0 || cr[j - 1]);
+            lemma_fa_unchanged_step(ls, cr, fin, i, j);
+            assert(j == (if k < hs.len() { hs[k] } else { ls.len() as int }));
+        }
+        if k == hs.len() { lemma_text_fin(ls, cr, fin, ls.len() as int); }
+    }
+
     /// C12, FASTA, in one statement: two texts of the same lines with different endings are read as the same records at the same lines
     pub proof fn lemma_fasta_endings_agree(ls: Seq<Seq<u8>>, cr1: Seq<bool>, fin1: bool, cr2: Seq<bool>, fin2: bool, hs: Seq<int>, r: int)
         requires fa_text_ok(ls, cr1, fin1), fa_text_ok(ls, cr2, fin2), fa_recs(ls, hs), 0 <= r < hs.len()
